@@ -128,6 +128,13 @@ type Case struct {
 	// New().Fill(empty map) then Assign key by key (struct, pointer, Stringer values as they
 	// are); "fragment" NewVue(fs).Funcs(...) + RenderFragment(w, file, data). Same meaning.
 	Deliver string `json:"deliver,omitempty"`
+	// equivalent spellings (same meaning in all positions): Tpl how the expression is embedded
+	// (tplSpellings); Strict the first N == / != are written === / !==; Keys every .name step
+	// as ['name'] ("s") or ["name"] ("d"); Form "call" writes a chain x | f(a) | g as g(f(x, a))
+	Tpl    string `json:"tpl,omitempty"`
+	Strict int    `json:"strict,omitempty"`
+	Keys   string `json:"keys,omitempty"`
+	Form   string `json:"form,omitempty"`
 	// the case registers its own upper / lower / trim / title / len, replacing the default
 	// functions of those names with distinguishable behaviour (see overrideOn)
 	Override bool   `json:"override,omitempty"`
@@ -182,7 +189,7 @@ func (c Case) scopeWrap() (open, close string) {
 func (c Case) Text() string {
 	switch c.Fam {
 	case "expr", "neg", "path", "absent":
-		return c.E.Spelled(c.Spell)
+		return c.E.text(&speller{mode: c.Spell, strict: c.Strict, keys: c.Keys})
 	}
 	if c.Call {
 		f := c.Stages[0].Text()
@@ -210,6 +217,19 @@ func (c Case) Text() string {
 		return f
 	}
 	sp := &speller{mode: c.Spell}
+	if c.Form == "call" {
+		// the same chain in call form: x | f(a) | g  ==  g(f(x, a))
+		out := c.Init
+		for _, s := range c.Stages {
+			args := out
+			for _, a := range s.A {
+				l, r := sp.around("comma")
+				args += l + "," + r + a.Text()
+			}
+			out = s.F + "(" + args + ")"
+		}
+		return out
+	}
 	out := c.Init
 	for _, s := range c.Stages {
 		l, r := sp.around("sym") // the pipe is spaced like the symbolic operators
@@ -223,20 +243,57 @@ func (c Case) Text() string {
 // literal text in an HTML5 attribute value, exactly as in the documented examples.
 func attrEsc(s string) string { return strings.ReplaceAll(s, `"`, "&quot;") }
 
-func templateFor(pos, e string) string {
+func templateFor(pos, e string) string { return templateForV(pos, e, "") }
+
+// template-level spellings (same meaning): how the expression is embedded in the template.
+//
+//	""         {{ e }}, :data-x="e", v-if="e" … with double-quoted attribute values
+//	pad-none   no blank around the expression ({{e}}, v-if="e")
+//	pad-tab / pad-lf / pad-crlf / pad-wide   tabs / a line break / CRLF / blanks and line breaks around it
+//	vbind      v-bind:data-x instead of :data-x
+//	squote     single-quoted attribute values
+//	upper      upper-case directive names (V-IF, V-SHOW, V-BIND:DATA-X)
+var tplSpellings = []string{"", "pad-none", "pad-tab", "pad-lf", "pad-crlf", "pad-wide", "vbind", "squote", "upper"}
+
+func templateForV(pos, e, tv string) string {
+	l, r := " ", " " // around the mustache content
+	al, ar := "", "" // around a directive's attribute value
+	switch tv {
+	case "pad-none":
+		l, r = "", ""
+	case "pad-tab":
+		l, r, al, ar = "\t", "\t", "\t", " \t"
+	case "pad-lf":
+		l, r, al, ar = "\n", "\n", "\n", "\n"
+	case "pad-crlf":
+		l, r, al, ar = "\r\n", "\r\n", "\r\n", "\r\n"
+	case "pad-wide":
+		l, r, al, ar = "  \n    ", "\n  ", "  ", "   "
+	}
+	q, esc := `"`, attrEsc(e)
+	if tv == "squote" {
+		q, esc = "'", strings.ReplaceAll(e, "'", "&#39;")
+	}
+	bind, vif, velseif, vshow, voff := ":data-x", "v-if", "v-else-if", "v-show", `v-if="off"`
+	switch tv {
+	case "vbind":
+		bind = "v-bind:data-x"
+	case "upper":
+		bind, vif, velseif, vshow, voff = "V-BIND:DATA-X", "V-IF", "V-ELSE-IF", "V-SHOW", `V-IF="off"`
+	}
 	switch pos {
 	case posInterp:
-		return "<i>{{ " + e + " }}</i>"
+		return "<i>{{" + l + e + r + "}}</i>"
 	case posSAttr:
-		return `<i title="{{ ` + attrEsc(e) + ` }}"></i>`
+		return `<i title=` + q + `{{` + l + esc + r + `}}` + q + `></i>`
 	case posBound:
-		return `<b :data-x="` + attrEsc(e) + `"></b>`
+		return `<b ` + bind + `=` + q + al + esc + ar + q + `></b>`
 	case posIf:
-		return `<p v-if="` + attrEsc(e) + `">Y</p><p v-else>N</p>`
+		return `<p ` + vif + `=` + q + al + esc + ar + q + `>Y</p><p v-else>N</p>`
 	case posElseIf:
-		return `<p v-if="off">A</p><p v-else-if="` + attrEsc(e) + `">Y</p><p v-else>N</p>`
+		return `<p ` + voff + `>A</p><p ` + velseif + `=` + q + al + esc + ar + q + `>Y</p><p v-else>N</p>`
 	case posShow:
-		return `<s v-show="` + attrEsc(e) + `">S</s>`
+		return `<s ` + vshow + `=` + q + al + esc + ar + q + `>S</s>`
 	}
 	return ""
 }
@@ -263,6 +320,7 @@ type engine struct {
 
 	open, close string              // enclosing scopes of the position template
 	idx, n      int                 // which of the n rendered copies of the position is observed
+	tv          string              // template-level spelling (see tplSpellings)
 	cache       map[string]rendered // a template is rendered once per engine (all copies share it)
 }
 
@@ -320,7 +378,7 @@ func (e *engine) renderParsed(tpl string) rendered {
 }
 
 func observe(eng *engine, pos, e string) (obs, error) {
-	r := eng.renderParsed(eng.open + templateFor(pos, e) + eng.close)
+	r := eng.renderParsed(eng.open + templateForV(pos, e, eng.tv) + eng.close)
 	out, err, ns, perr := r.out, r.err, r.ns, r.perr
 	if err != nil {
 		return obs{err: err}, nil
@@ -598,6 +656,7 @@ func checkValue(c Case, env map[string]any, eng *engine, pos []string, idx int, 
 		return err
 	}
 	eng.open, eng.close = c.scopeWrap()
+	eng.tv = c.Tpl
 	eng.idx, eng.n = idx, n
 	if c.Fam == "expr" {
 		// the twin (same shape, same length, sibling operators) goes through the same engine first
@@ -1040,6 +1099,7 @@ func TestProp(t *testing.T) {
 	enum = append(enum, g.enumExprLib()...)
 	enum = append(enum, g.enumLate()...)
 	enum = append(enum, g.enumOverride()...)
+	enum = append(enum, g.enumEquivalents()...)
 	okAll := true
 	for i, c := range enum {
 		if i%shards != shard {
@@ -1050,6 +1110,21 @@ func TestProp(t *testing.T) {
 			c.Deliver = "fragment"
 			if c.Env != structEnv && (i/4)%2 == 0 {
 				c.Deliver = "assign"
+			}
+		}
+		// documented-equivalent spellings, rotating over the enumeration
+		if c.Fam == "expr" || c.Fam == "pipe" || c.Fam == "path" || c.Fam == "neg" || c.Fam == "absent" {
+			if i%3 == 0 {
+				c.Tpl = tplSpellings[1+(i/3)%(len(tplSpellings)-1)]
+			}
+			if c.E != nil && hasEq(*c.E) && i%2 == 0 {
+				c.Strict = 1 + i%3
+			}
+			if c.E != nil && c.Fam != "absent" && i%5 == 0 {
+				c.Keys = []string{"s", "d"}[(i/5)%2]
+			}
+			if c.Fam == "pipe" && i%4 == 2 {
+				c = callForm(c)
 			}
 		}
 		if (c.Fam == "expr" || c.Fam == "pipe") && i%7 == 3 {
